@@ -30,7 +30,7 @@ RULE = ("cases: one sampled array = (model, interventions, n, seed).  distinct =
 ASSUMPTIONS = ["the population law used as reference is the library's sample(population=True) (validated separately by C01)",
                "targets that are both shift- and noise-intervened are excluded from the ANM/LGANM comparison (as in the property)"]
 EXHAUSTIVE = {"quick": False, "thorough": False}
-SOFT_LIMIT = {"quick": 280, "thorough": 1700}
+SOFT_LIMIT = {"quick": 1200, "thorough": 5400}      # generous wall-clock watchdogs (a loaded machine must not cut a workload short); normal run times are in the evidence
 REQUIRED_FUNCS = ["sempler/normal_distribution.py:NormalDistribution.sample", "sempler/lganm.py:LGANM.sample", "sempler/anm.py:ANM.sample",
                   "sempler/noise.py:normal"]
 REQUIRED_COUNTERS = {"quick": {"judged:nd": 200, "judged:lganm": 300, "judged:anm-pair": 200, "point-mass-columns": 100, "singular-covariances": 50,
